@@ -50,7 +50,7 @@ type harnessAgg struct {
 
 func defaultCfg(tier string, scratch string) Config {
 	c := Config{Tier: tier, Backend: smt.BackendCVC5, SoftMS: 5000, HardS: 20, Scratch: scratch,
-		InstrBudget: 20_000_000, DepthBudget: 300}
+		InstrBudget: 20_000_000, DepthBudget: 300, MaxDecisions: 600, BatchMax: 12}
 	if tier == "thorough" {
 		c.HardS = 120
 		c.SoftMS = 10000
@@ -79,6 +79,9 @@ func cfgFor(h *Harness, tier, scratch string) Config {
 		cfg.SoftMS = h.SoftMS
 	}
 	cfg.ConcretizeN = h.ConcretizeN
+	if h.MaxDecisions > 0 {
+		cfg.MaxDecisions = h.MaxDecisions
+	}
 	cfg.BudgetIsViolation = h.BudgetViolation
 	cfg.NoMerge = h.NoMerge
 	return cfg
